@@ -18,7 +18,7 @@ OUTSIDE = ['symbol count recovery when no hash table exists (heuristic; the stat
 
 DT = dict(NULL=0, NEEDED=1, PLTRELSZ=2, HASH=4, STRTAB=5, SYMTAB=6, RELA=7, RELASZ=8, RELAENT=9, STRSZ=10, SYMENT=11, SONAME=14, RPATH=15, REL=17, RELSZ=18, RELENT=19,
           PLTREL=20, JMPREL=23, RUNPATH=29, RELRSZ=35, RELR=36, RELRENT=37, GNU_HASH=0x6ffffef5, FLAGS_1=0x6ffffffb)
-DYNSTR = [0] + [ord(c) for c in 'libc.so.6\0libm.so\0/opt/lib\0f\0gg\0']
+DYNSTR = [0] + list('libc.so.6\0li\u00f6.so\0/\u00f6pt/li\0f\0gg\0'.encode('utf-8'))      # dynamic strings are UTF-8 text (same offsets as an ASCII table would have)
 STARTS = [1, 11, 19, 28, 30, 0, 5]
 SYMNAMES = [0, 28, 30]         # '', 'f', 'gg'
 
@@ -27,7 +27,7 @@ def _s(o):
     e = o
     while DYNSTR[e] != 0:
         e += 1
-    return ''.join(chr(c) for c in DYNSTR[o:e])
+    return bytes(DYNSTR[o:e]).decode('utf-8')
 
 
 def _template(ctx, cfg):
